@@ -93,6 +93,9 @@ func (fr *Frame) call(in ssa.Instruction, c *ssa.CallCommon, st *State, g string
 	if key == "sort.Slice" && fr.sortSliceModel(c, st, g, pos) {
 		return nil
 	}
+	if key == "slices.SortFunc" && fr.sortFuncModel(c, st, g, pos) { // ext_c07.go
+		return nil
+	}
 	if key == "math.Abs" && spec == nil && len(args) == 1 {
 		// trusted model: |x| on the reals (finite float64 values are reals; Abs is exact)
 		fc.assumes["trusted model: math.Abs(x) == |x| (exact on finite float64)"] = true
